@@ -159,6 +159,13 @@ func (c *Ctx) abs(f *ssa.Function, rel string) string {
 		}
 		var idx int
 		fmt.Sscanf(rel[1:i], "%d", &idx)
+		// a new single-use helper: the path is the caller's argument path continued
+		if cs := c.soleCall(f); cs != nil && idx < len(cs.Common().Args) && !cs.Common().IsInvoke() {
+			ap := c.rel(c.pathOf(cs.Common().Args[idx]))
+			if strings.HasPrefix(ap, "$") {
+				return c.abs(cs.Parent(), ap+rel[i:])
+			}
+		}
 		if idx < len(f.Params) {
 			return typeName(f.Params[idx].Type()) + rel[i:]
 		}
